@@ -485,6 +485,29 @@ pub fn c05(ctx: &Ctx, rep: &mut Report) {
             c05_file(rep, &format!("special:{}", name), &prog, 10_000, replay, Some((expect, ok)));
         }
     }
+    // the stress shapes (255 arguments, > 256 locals / constants / labels, long strings …) compiled by
+    // the independent compiler
+    let mut ks = 0u64;
+    for (name, src) in stress_sources() {
+        ks += 1;
+        if !ctx.mine(ks) {
+            continue;
+        }
+        if let Ok(ast) = real::parse(&src) {
+            let out = refsem::run(&ast, big_limits());
+            if !out.judged() {
+                continue;
+            }
+            let mut rng = ctx.rng("C05stress", ks);
+            for variant in 0..2 {
+                if let Ok(prog) = altcc::compile(&ast, &mut rng) {
+                    let replay = json!({"check":"C05","prog_b64": if src.len() < 20000 { b64(&bcfmt::write(&prog)) } else { String::new() }, "stress": name, "variant": variant});
+                    c05_file(rep, &format!("stress:{}/v{}", name, variant), &prog, cap_for(&out) * 2, replay, Some((out.out.as_str(), !out.failed())));
+                    rep.bump("c05-source", "stress-altcc");
+                }
+            }
+        }
+    }
     rep.count("table_cells_total", (recvs.len() * names.len() * arg_sets.len()) as u64);
     // (a) alternate compiler with randomised conventions
     let n = ctx.share(15_000, 600_000);
